@@ -34,15 +34,15 @@ CLAIMED["C03"] = dict(
 
 CLAIMED["C01"] = dict(
     category="model_checking",
-    text="Bounded. Per-step matching contracts on the real router code: split_next_section (attribute contract, proof_for_contract), Pattern::take_through for Static "
+    text="Bounded, except split_next_section, whose contract is additionally discharged by Verus for slices of EVERY length on the text cut from util.rs on each run (safe-slice rewriting rules S1-S8, DESIGN 10.1). Per-step matching contracts on the real router code: split_next_section (attribute contract, proof_for_contract), Pattern::take_through for Static "
          "(matches iff the identical whole segment(s), not a byte prefix) and Param (non-empty segment, exactly that segment pushed as param), Path::init_with_request_bytes "
          "(one trailing slash ignored), each for all byte strings up to 8 bytes; and Node::search_target on three concrete final trees (static+param siblings, a compressed chain, "
          "two nested params with a static alternative) for EVERY request path up to 8 bytes against the segment-wise reference (target node, hit/miss, captured params). Router::handle over six one-route trees with distinct handlers: each of the 7 methods on a registered and on an "
          "unregistered path runs the handler of that method's tree (HEAD: the GET handler, answered without a body but with its headers); no route => 404 from the catch proc.",
-    design_ref="DESIGN.md §4 C01, §9.9",
+    design_ref="DESIGN.md §4 C01, §9.9, §10.1",
     note="Bounded by path length 8 and by the three tree shapes. Not under contract: registration (base.rs), From<base::Node> (compression, child sort), merge of nested Ohkamis, "
          "paths with empty segments (safety only). A genuine defect found by these obligations was repaired (fix: 1cbecf7).",
-    technique="Kani function contract (proof_for_contract) + harness contracts over symbolic byte strings; concrete trees with symbolic request paths",
+    technique="Kani function contract (proof_for_contract) + harness contracts over symbolic byte strings; concrete trees with symbolic request paths; Verus requires/ensures/loop invariant on split_next_section (unbounded) extracted from the source each run",
 )
 
 CLAIMED["C07"] = dict(
